@@ -6,7 +6,8 @@ Statement-by-statement transcription of
 
 * `_rolling_hash2_init`, `_rolling_hash2_reset`, `hash_fn`, `_rolling_hash2_run`
   (the "glue": history loop, call of the dispatched scan, history refresh, return codes),
-* `_rolling_hash2_run_until_base` (the portable inner scan, with its `int` loop variables),
+* `_rolling_hash2_run_until_base` (the portable inner scan, also in `rolling_hash2.c`; `uint32_t` index
+  and bound since commit 4824648),
 * `_rolling_hashx_mask_gen` / `floor_pow2` / `rol`,
 * the `isal_rolling_hash2_init` wrapper's return code.
 
@@ -27,8 +28,12 @@ time, the specification of the two assembly versions (`_rolling_hash2_run_until_
   property theorems show results equal to the specification for arbitrary data, which would be
   impossible if an out-of-range read ever influenced a result).
 * `uint32_t` values (`w`, `i`, `buffer_length`, `*offset`) are `Nat`s; the theorems' hypotheses
-  (`w ≤ 48`, `buffer_length < 2^31`) keep every value below `2^32`, so no wrap-around is modelled
-  except the one that matters: the `uint32_t → int` conversions at the call of the scan (`toInt32`).
+  (`w ≤ 48`, `buffer_length < 2^32` — it is a `uint32_t` — and `buffer_length ≤` size of the buffer)
+  keep every value below `2^32`, so no wrap-around occurs.  The one conversion in the code, the
+  scan's parameter `int max_idx` which the base scan casts back with `(uint32_t) max_idx`, is a
+  round trip on 32 bits: the model passes the unsigned value and reduces it mod `2^32` at the cast.
+  (Before commit 4824648 the base scan compared `int`s and consumed nothing for lengths `≥ 2^31`,
+  defect F4; that code is kept as documentation at the end of `Props/C09.lean`.)
 -/
 namespace IsalVerif.Impl.Rolling
 open IsalVerif.Spec.Rolling
@@ -68,11 +73,6 @@ def slice (l : List UInt8) (off n : Nat) : List UInt8 := (l.drop off).take n
 /-- `memcpy(dst + off, src, |src|)` on a byte list (`src` already read, so also `memmove`) -/
 def store (dst : List UInt8) (off : Nat) (src : List UInt8) : List UInt8 :=
   dst.take off ++ src ++ dst.drop (off + src.length)
-
-/-- conversion `uint32_t → int` (two's complement, as every supported compiler does) -/
-def toInt32 (n : Nat) : Int :=
-  let m : Nat := n % 2 ^ 32
-  if m < 2 ^ 31 then (m : Int) else (m : Int) - 2 ^ 32
 
 /-! ### state -/
 
@@ -133,30 +133,31 @@ def hashFn (st : RhState) (h : UInt64) (newChar oldChar : UInt8) : UInt64 :=
 /-! ### the inner scan -/
 
 /-- Signature of `_rolling_hash2_run_until*`:
-`(idx, max_idx, t1, t2, b1, b2, h, mask, trigger) ↦ (new *idx, returned hash)`. -/
+`(idx, max_idx, t1, t2, b1, b2, h, mask, trigger) ↦ (new *idx, returned hash)`.
+`max_idx` is declared `int` but carries the caller's `uint32_t buffer_length`; the model passes
+those 32 bits as the unsigned number. -/
 abbrev ScanFn :=
-  Nat → Int → (UInt8 → UInt64) → (UInt8 → UInt64) → Ptr → Ptr → UInt64 → UInt64 → UInt64 → Nat × UInt64
+  Nat → Nat → (UInt8 → UInt64) → (UInt8 → UInt64) → Ptr → Ptr → UInt64 → UInt64 → UInt64 → Nat × UInt64
 
-/-- One of the two `for (; i < max_idx; i++)` loops of `_rolling_hash2_run_until_base`, `hit` being
-its exit test; `int i`, `int max_idx`.  Returns `(i, h)` as at the `return`. -/
-def untilLoop (hit : UInt64 → Bool) (maxIdx : Int) (t1 t2 : UInt8 → UInt64) (b1 b2 : Ptr)
-    (i : Int) (h : UInt64) : Int × UInt64 :=
-  if i < maxIdx then
+/-- One of the two `for (; i < max; i++)` loops of `_rolling_hash2_run_until_base`, `hit` being
+its exit test; `uint32_t i`, `const uint32_t max` (`i < max < 2^32`, so `i++` never wraps).
+Returns `(i, h)` as at the `return`. -/
+def untilLoop (hit : UInt64 → Bool) (max : Nat) (t1 t2 : UInt8 → UInt64) (b1 b2 : Ptr)
+    (i : Nat) (h : UInt64) : Nat × UInt64 :=
+  if i < max then
     let h := rol1 h
-    let h := h ^^^ (t1 (b1.rd i) ^^^ t2 (b2.rd i))
+    let h := h ^^^ (t1 (b1.rd (i : Int)) ^^^ t2 (b2.rd (i : Int)))
     if hit h then (i, h)                       -- *idx = i; return h;
-    else untilLoop hit maxIdx t1 t2 b1 b2 (i + 1) h
+    else untilLoop hit max t1 t2 b1 b2 (i + 1) h
   else (i, h)                                  -- *idx = i; return h;  (after the loop)
-termination_by (maxIdx - i).toNat
-decreasing_by omega
+termination_by max - i
 
 /-- `_rolling_hash2_run_until_base` -/
 def runUntilBase : ScanFn := fun idx maxIdx t1 t2 b1 b2 h mask trigger =>
-  let i : Int := toInt32 idx                   -- int i = *idx;
-  let (i, h) :=
-    if trigger == 0 then untilLoop (fun h => (h &&& mask) == 0) maxIdx t1 t2 b1 b2 i h
-    else untilLoop (fun h => (h &&& mask) == trigger) maxIdx t1 t2 b1 b2 i h
-  (i.toNat % 2 ^ 32, h)                        -- *idx = i  (int → uint32_t; i ≥ 0 here)
+  let i : Nat := idx                           -- uint32_t i = *idx;
+  let max : Nat := maxIdx % 2 ^ 32             -- const uint32_t max = (uint32_t) max_idx;
+  if trigger == 0 then untilLoop (fun h => (h &&& mask) == 0) max t1 t2 b1 b2 i h
+  else untilLoop (fun h => (h &&& mask) == trigger) max t1 t2 b1 b2 i h
 
 /-! ### `_rolling_hash2_run` -/
 
@@ -206,7 +207,7 @@ def run (scan : ScanFn) (st : RhState) (buffer : Buf) (bufferLength : Nat) (mask
   | .inl r => r
   | .inr (i, hash) =>
     -- hash = _rolling_hash2_run_until(&i, buffer_length, table1, table2, buffer, buffer - w, hash, mask, trigger)
-    let (i, hash) := scan i (toInt32 bufferLength) table1 st.table2 ⟨buffer, 0⟩ ⟨buffer, -(w : Int)⟩
+    let (i, hash) := scan i bufferLength table1 st.table2 ⟨buffer, 0⟩ ⟨buffer, -(w : Int)⟩
       hash mask.toUInt64 trigger.toUInt64
     if (hash &&& mask.toUInt64) == trigger.toUInt64 then
       let i := i + 1                          -- found hit: i++
@@ -261,8 +262,8 @@ structure Call where
   mask : UInt32
   trigger : UInt32
 
-/-- the caller owns `maxLen` bytes, and `maxLen` fits the scan's `int` (see defect F4) -/
-def Call.Valid (c : Call) : Prop := c.maxLen ≤ c.buffer.size ∧ c.maxLen < 2 ^ 31
+/-- the caller owns `maxLen` bytes, and `maxLen` is a `uint32_t` -/
+def Call.Valid (c : Call) : Prop := c.maxLen ≤ c.buffer.size ∧ c.maxLen < 2 ^ 32
 
 /-- Arbitrary successive `run` calls on one state.  Returns the final state and the bytes consumed:
 each call consumes the first `*offset` bytes of its buffer. -/
